@@ -12,6 +12,8 @@ CONSTANTS
     DEV_PartialIntersection,            \* add_objects(Intersection) keeps ids marked before the colliding one
     DEV_PartialNetwork,                 \* add_objects(LaneletNetwork) keeps ids marked before the colliding one
     DEV_AddNetOnNonEmpty,               \* add_objects(LaneletNetwork) replaces a non-empty network without releasing ids
+    DEV_HangingFreesNamedIds,           \* remove_lanelet(referenced_elements) releases every sign / light id the lanelet NAMES,
+                                        \* also one that no contained sign / light has (another object may hold it)
     MaxGen,                             \* bound on generate_object_id calls (state constraint)
     Universe                            \* token names in play for this configuration
 
@@ -69,8 +71,12 @@ RemoveSimple(op, kinds, q, list) ==
 RemoveLanelet(q, ref) ==
     LET Ls == SeqSet(q)
         h  == IF ref THEN Hanging(s, Ls, "sign", "sg") \cup Hanging(s, Ls, "light", "lt") ELSE {}
+        rem == (Lanelets \cap s.C) \ Ls
+        named == ((UNION {s.sg[n] : n \in Ls}) \ (UNION {s.sg[n] : n \in rem}))
+                 \cup ((UNION {s.lt[n] : n \in Ls}) \ (UNION {s.lt[n] : n \in rem}))
     IN /\ Ls \subseteq s.C /\ \A n \in Ls : Tok[n].k = "lanelet"
-       /\ s' = RemoveState(s, Ls \cup h) /\ idSet' = idSet \ Release(Ls \cup h, TRUE) /\ UNCHANGED cnt
+       /\ s' = RemoveState(s, Ls \cup h) /\ UNCHANGED cnt
+       /\ idSet' = idSet \ (Release(Ls \cup h, TRUE) \cup (IF ref /\ DEV_HangingFreesNamedIds THEN named ELSE {}))
        /\ act' = Act("remove_lanelet", q, IF ref THEN 1 ELSE 0, "ok")
 
 Erase == /\ s' = RemoveState(s, NetPart(s.C)) /\ idSet' = idSet \ Release(NetPart(s.C), FALSE) /\ UNCHANGED cnt
